@@ -235,12 +235,16 @@ def ofExcept {T : Type} (r : Except String T) (k : T → Reply α) : Reply α :=
     | some (n, o) => if o = x.size then ofExcept (A.default n) (fun c => .words (t.encode c)) else .bad "arity"
     | none => .bad "decode"
   | "man_copy" =>
-    -- copy, then mutate the copy: reply = original afterwards ++ mutated copy
+    -- `c(m)`, mutate c; `e = m` (copy assignment); mutate m.  Values are independent objects:
+    -- reply = c (mutated) ++ e (the old m) ++ m (mutated)
     match t.decode x 0 with
     | some (m, o) =>
       match decodeList x o with
       | some (a, o1) =>
-        if o1 = x.size then .words (t.encode m ++ t.encode (A.rplus m a)) else .bad "arity"
+        if o1 = x.size then
+          let mp := t.encode (A.rplus m a)
+          .words (mp ++ t.encode m ++ mp)
+        else .bad "arity"
       | none => .bad "decode-tangent"
     | none => .bad "decode"
   | _ => .bad ("unknown-op " ++ op)
@@ -279,7 +283,14 @@ def runManifAt (α : Type) [Scalar α] [Bits α] (op grp : String) (args : Array
   | none => "ERR unknown-type " ++ grp
   | some t =>
     let x : Array α := args.map Bits.ofHex
-    if op == "man_subctor" || op == "man_cast_intended" then
+    if op == "man_anyctor" then
+      match t with
+      | .any4 a b c d =>
+        replyString (α := α) (ofExcept
+          (anyDefaultCtor (Ms := Fam4 (a.carrier α) (b.carrier α) (c.carrier α) (d.carrier α)))
+          (fun _ => .bad "constructed"))
+      | _ => "ERR not-an-anymanifold"
+    else if op == "man_subctor" || op == "man_cast_intended" then
       match t with
       | .sub t' => replyString (runSubOp t' op x)
       | _ => "ERR not-a-submanifold"
